@@ -144,3 +144,13 @@ func forall(lo, hi int, f func(int) bool) bool {
 //@     invariant forall(func(s string) bool { return has(listed, s) ==> inFiles(fileNames, s) })
 //@     invariant forall(0, idx0_, func(c int) bool { return ckptIn(fileNames, listDoc.Checkpoints[c]) })
 //@     invariant walsIn(fileNames, ckpt, len(ckpt.WALs)) && levelsIn(fileNames, ckpt, idx2_) && levelIn(fileNames, level, idx_)
+
+// The next write-ahead log of a restored database gets a file number ABOVE every WAL the
+// checkpoint references (a checkpoint merged from several instances lists WALs in any order): a
+// reused number would overwrite a file retained checkpoints still need (C08, C09).
+//@ func Checkpoint.NextWALID
+//@   property C08 C09
+//@   modifies nothing
+//@   ensures forall(0, len(cp.WALs), func(j int) bool { return result > cp.WALs[j].ID })
+//@   loop 0:
+//@     invariant forall(0, idx_, func(j int) bool { return maxID >= cp.WALs[j].ID })
